@@ -1,11 +1,11 @@
 CONFIG = {
-    "id": "C03",
-    "coq_targets": ["Props/C03.v", "Model/SimCheck.v"],
-    "prop_files": ["Props/C03.v"],
+    "id": "C08",
+    "coq_targets": ["Props/C08.v", "Model/SimCheck.v"],
+    "prop_files": ["Props/C08.v"],
     "gen": [],
     "components": [{
         "name": "sim", "modules": ["Base.NumOps", "Model.Turn", "Model.Sim", "Model.SimCheck"],
-        "check": "check_case", "monitor": "monitor_c03", "model_out": "monitor_detail",
+        "check": "check_case", "monitor": "monitor_c08", "model_out": "monitor_detail",
         "case_type": "case", "ops_path": None, "mismatch_is_violation": False,
         "n_quick": 300, "n_thorough": 12000, "shard": 100,
     }],
@@ -24,13 +24,10 @@ CONFIG = {
                 "the turn manager part is Model/Turn.v at binary64 (property C02)"],
     "assumptions": ["content uses the engine API legally: qualified attacks and EndAttack only from action / ult / insert bodies"],
     "manifest": {
-        "level_text": "Kernel-checked theorem: every terminated run of the executable whole-simulation model (all configs, all "
-                      "content scripts, all decision sequences, all fuel) produces a trace accepted by the lifecycle-protocol "
-                      "stack automaton; the model's complete trace and result are compared exactly with the real simulator on "
-                      "generated scripted battles, and the automaton is also run as a monitor on the real traces.",
+        "level_text": 'Kernel-checked theorems about the executable whole-simulation model: what a death check kills (dead always, limbo only at turn end), that the living lists lose exactly the killed units and that no content script or listener can change them, that no HP change revives or re-limbos a dead unit, that an action starts only for an Alive unit and that queued inserts of dead / removed / flagged sources are dropped without any event. The trace-level statement (announced once, absent from every later turn order / sample / action / insert, killer = last damaging attacker) is a boolean trace predicate evaluated on every real simulator trace (and, through exact trace correspondence, on every model trace); it is proved per function, not as one invariant over whole runs (partial).',
         "level_note": "Coq kernel; hand-written model Model/Sim.v tied by whole-trace correspondence; content is scripted harness "
                       "content registered through the exported Register functions; internal/* content is not modelled.",
-        "technique": "Coq proof (Hoare-style segment lemmas against a protocol automaton) + correspondence + trace monitor",
-        "design_ref": "DESIGN.md section 7, C03",
+        "technique": 'Coq proofs (frame and absorption lemmas over all scripts) + whole-trace correspondence + trace monitor',
+        "design_ref": "DESIGN.md section 7, C08",
     },
 }
